@@ -66,7 +66,7 @@ def _val(v: str):
 
 
 def _slot(sp: str, v: str):
-    if sp in ("-", "-a", "-u", "-o"):
+    if sp in ("-", "-a", "-u", "-o", "-n", "-v", "-s"):
         return gen_ctx.Slot(None, None, False, _val(v), pspell=sp)
     cls, opt, shape = sp.split(",", 2)
     if opt not in ("0", "1", "4", "5", "7", "A"):
